@@ -497,6 +497,23 @@ func (fr *Frame) contractCall(con *Contract, key string, sig *types.Signature, c
 				l := c.ptrLVal(p, ca.ifaceElem[i])
 				fr.write(l, st, c.freshOfType("out", ca.ifaceElem[i]))
 			}
+			// `modifies *recv.field`: the object a path expression over the parameters denotes
+			for _, n := range names {
+				if isPlainIdent(n) {
+					continue
+				}
+				ex, err := parseCExpr(n)
+				if err != nil {
+					c.stale = append(c.stale, fmt.Sprintf("%s:%d: modifies *%s: %v", con.File, con.Line, n, err))
+					continue
+				}
+				tv, err := mkEC(pre, pre).eval(ex)
+				if err != nil {
+					c.stale = append(c.stale, fmt.Sprintf("%s:%d: modifies *%s: %v", con.File, con.Line, n, err))
+					continue
+				}
+				fr.havocObject(tv, st)
+			}
 			for i, t := range ca.terms {
 				if sl, isSlice := ca.types[i].Underlying().(*types.Slice); isSlice && allowed(i) {
 					// the elements of a slice argument may change (its backing array gets arbitrary contents)
@@ -1305,4 +1322,34 @@ func (fr *Frame) nullableField(v ssa.Value) bool {
 	}
 	st, ok := fa.X.Type().Underlying().(*types.Pointer).Elem().Underlying().(*types.Struct)
 	return ok && fr.con.Nullable[st.Field(fa.Field).Name()]
+}
+
+func isPlainIdent(s string) bool {
+	for i := 0; i < len(s); i++ {
+		if !isIdentChar(s[i]) {
+			return false
+		}
+	}
+	return s != ""
+}
+
+// havocObject gives the object a pointer / map / slice value denotes arbitrary new contents.
+func (fr *Frame) havocObject(tv TV, st *State) {
+	c := fr.c
+	switch u := tv.Ty.Underlying().(type) {
+	case *types.Pointer:
+		l := c.ptrLVal(tv.T, u.Elem())
+		fr.write(l, st, c.freshOfType("out", u.Elem()))
+	case *types.Map:
+		ks, vs := c.sortOf(u.Key()), c.sortOf(u.Elem())
+		dk, vk := c.regMap(ks, vs)
+		st.set(dk, c.sc.define("mdom", sto(c.get(st, dk), tv.T, c.sc.fresh("out_dom", arraySort(ks, SBool)))))
+		st.set(vk, c.sc.define("mval", sto(c.get(st, vk), tv.T, c.sc.fresh("out_val", arraySort(ks, vs)))))
+		c.heapWritten(st)
+	case *types.Slice:
+		es := c.sortOf(u.Elem())
+		k := c.regElem(es)
+		st.set(k, c.sc.define("elems", sto(c.get(st, k), slPtr(tv.T), c.sc.fresh("out_elems", arraySort(c.sc.idxSort(), es)))))
+		c.heapWritten(st)
+	}
 }
